@@ -82,6 +82,7 @@ struct Lock<'a> {
     /// byte comparison every `stride`-th successful call (long-lived histories)
     stride: usize,
     since_check: usize,
+    calls_seen: usize,
 }
 
 impl Lock<'_> {
@@ -196,7 +197,8 @@ impl Lock<'_> {
             let failed_all = matches!(ra, OpResult::Err(_)) && !matches!(applied_kind(&op, buf), Applied::Write | Applied::Vectored | Applied::Flush);
             self.failed_all |= failed_all;
             self.since_check += 1;
-            let due = self.since_check >= self.stride || !matches!(ra, OpResult::Count(_) | OpResult::Done);
+            self.calls_seen += 1;
+            let due = self.since_check >= self.stride.max(self.calls_seen / 200) || !matches!(ra, OpResult::Count(_) | OpResult::Done);
             if due {
                 self.since_check = 0;
             }
@@ -339,7 +341,8 @@ impl Lock<'_> {
             }
             self.c += consumed;
             self.since_check += 1;
-            if self.since_check < self.stride {
+            self.calls_seen += 1;
+            if self.since_check < self.stride.max(self.calls_seen / 200) {
                 continue;
             }
             self.since_check = 0;
@@ -435,7 +438,7 @@ fn execute_inner(t: &Trace, stats: &mut Stats, record: bool) -> Outcome {
     } else {
         stats.probe("config_faulty");
     }
-    let mut lk = Lock { t, record, log: Vec::new(), hash: Fnv::default(), c: 0, stats, ops_done: 0, failed_all: false, stride: check_stride(t.ops.len()), since_check: 0 };
+    let mut lk = Lock { t, record, log: Vec::new(), hash: Fnv::default(), c: 0, stats, ops_done: 0, failed_all: false, stride: check_stride(t.ops.len()), since_check: 0, calls_seen: 0 };
     lk.hash.str(&t.surface);
 
     let wa = SimWriter::new(t.faults.clone(), record);
